@@ -61,6 +61,11 @@ impl RenetClient {
 //@specfile contracts/shared/RenetClient.disconnect.spec
 //@endfn
 
+//@stub renet/src/remote_connection.rs RenetClient::is_connected
+//@ret r
+//@specfile contracts/shared/RenetClient.is_connected.spec
+//@endfn
+
 //@stub renet/src/remote_connection.rs RenetClient::is_disconnected
 //@ret r
 //@specfile contracts/shared/RenetClient.is_disconnected.spec
@@ -95,6 +100,43 @@ impl RenetClient {
 }
 
 impl RenetServer {
+//@fn renet/src/server.rs RenetServer::new
+//@ret r
+//@spec
+        ensures
+            r.connections@ == Map::<u64, RenetClient>::empty() && r.events@.len() == 0,       // @C12 new.no_connections_no_events
+//@endfn
+
+//@fn renet/src/server.rs RenetServer::is_connected
+//@ret r
+//@spec
+        ensures
+            r == (self.connections@.contains_key(client_id) && self.connections@[client_id].connection_status is Connected),   // @C11,C12 is_connected.exact
+//@endfn
+
+//@fn renet/src/server.rs RenetServer::disconnect_reason
+//@ret r
+//@spec
+        ensures
+            r == (if self.connections@.contains_key(client_id) {
+                match self.connections@[client_id].connection_status {
+                    RenetConnectionStatus::Disconnected { reason } => Some(reason),
+                    _ => None::<DisconnectReason>,
+                }
+            } else { None::<DisconnectReason> }),                                                   // @C12 disconnect_reason.first_reason_of_that_client
+//@endfn
+
+//@fn renet/src/server.rs RenetServer::new_local_client
+//@ret r
+//@spec
+        ensures
+            r.connection_status is Connected,                                                       // @C12 new_local_client.client_side_connected
+            old(self).connections@.contains_key(client_id) ==> final(self).connections@ == old(self).connections@
+                && final(self).events@ == old(self).events@,                                        // @C12 new_local_client.existing_id_changes_nothing
+            !old(self).connections@.contains_key(client_id) ==> final(self).connections@.dom() == old(self).connections@.dom().insert(client_id)
+                && final(self).events@ == old(self).events@.push(ServerEvent::ClientConnected { client_id }),   // @C12 new_local_client.connected_event_once
+//@endfn
+
 //@fn renet/src/server.rs RenetServer::add_connection
 //@specfile contracts/shared/RenetServer.add_connection.spec
 //@endfn
@@ -160,6 +202,11 @@ impl RenetServer {
 //@specfile contracts/shared/RenetServer.disconnect_local_client.spec
 //@endfn
 }
+
+/// rule D6: an outlined loop body must not leave the loop early (`break` / `return` of the enclosing function)
+pub proof fn d6_loop_left_early()
+    requires false,      // @C11,C12,C13,C14,C15 d6.loop_visits_every_entry
+{}
 
 // ---- loop bodies over the connection table (rule D6: proved for an arbitrary entry; std's iteration protocol -- every entry
 //      visited exactly once by values_mut()/iter_mut() -- is assumed) ----
